@@ -11,6 +11,7 @@ sub-language raises `Unsupported`, which the rules turn into ANALYSIS-ERROR
 from __future__ import annotations
 
 import ast
+import itertools as _itertools
 import operator
 
 from .loader import AnalysisError, src
@@ -59,6 +60,7 @@ class Evaluator:
         self.isinstance_fn = isinstance_fn or _default_isinstance
         self.steps = 0
         self.max_steps = max_steps
+        self.yields = []
 
     # -- calling repo functions -------------------------------------------------
     def call(self, finfo, args, kwargs=None, self_obj=None):
@@ -142,6 +144,18 @@ class Evaluator:
             env[t.id] = v
         elif isinstance(t, (ast.Tuple, ast.List)):
             vs = tuple(v)
+            stars = [i for i, x in enumerate(t.elts) if isinstance(x, ast.Starred)]
+            if stars:
+                if len(stars) != 1 or len(vs) < len(t.elts) - 1:
+                    raise Unsupported("starred unpack")
+                i = stars[0]
+                nafter = len(t.elts) - i - 1
+                for tt, vv in zip(t.elts[:i], vs[:i]):
+                    self.assign(tt, vv, env, fi)
+                self.assign(t.elts[i].value, list(vs[i:len(vs) - nafter]), env, fi)
+                for tt, vv in zip(t.elts[i + 1:], vs[len(vs) - nafter:]):
+                    self.assign(tt, vv, env, fi)
+                return
             if len(vs) != len(t.elts):
                 raise Unsupported("unpack length")
             for tt, vv in zip(t.elts, vs):
@@ -171,6 +185,8 @@ class Evaluator:
                 return tgt
             if e.id in _BUILTIN_TYPES:
                 return _BUILTIN_TYPES[e.id]
+            if e.id == "itertools":
+                return _itertools
             raise Unsupported(f"name {e.id} in {fi.fq}")
         if isinstance(e, ast.Tuple):
             return tuple(self.expr(x, env, fi) for x in e.elts)
@@ -238,6 +254,9 @@ class Evaluator:
             return self.getattr(v, e.attr, fi)
         if isinstance(e, ast.Call):
             return self.callexpr(e, env, fi)
+        if isinstance(e, ast.Yield):
+            self.yields.append(None if e.value is None else self.expr(e.value, env, fi))
+            return None
         if isinstance(e, ast.Starred):
             raise Unsupported("starred outside call")
         raise Unsupported(f"expression {type(e).__name__}: {src(e)[:60]} in {fi.fq}")
@@ -288,6 +307,10 @@ class Evaluator:
                 return ("bound", m, None)
         if hasattr(v, "_attr"):
             return v._attr(attr)
+        if isinstance(v, dict) and attr in ("keys", "values", "items", "get"):
+            return getattr(v, attr)
+        if v is _itertools and attr in ("product",):
+            return getattr(v, attr)
         raise Unsupported(f"attribute .{attr} on {type(v).__name__} in {fi.fq}")
 
     def callexpr(self, e, env, fi):
@@ -345,6 +368,8 @@ class Evaluator:
             if init is not None:
                 self.call_init(init, o, args, kwargs)
             return o
+        if callable(f) and getattr(f, "__self__", None) is not None or f is _itertools.product:
+            return f(*args, **kwargs)
         raise Unsupported(f"call of {f!r} in {fi.fq}")
 
     def call_init(self, init, obj, args, kwargs):
